@@ -40,6 +40,25 @@ theorem acceptance_ignores_destination (s : State) (m m' : Msg) (v g : Bool) (hq
   unfold recvMsg
   split <;> simp
 
+/-- Known finding (format level): `SessionMsg.seqno` is outside the signed message. The acceptance
+condition of a delivered message does not depend on its sequence number, so a relay can re-present
+an authentic message of the remote peer under ANY other sequence number and the client stores it
+(the "modified … messages" clause of C19 fails for this one unsigned field; the body, the sender
+and the signature cannot be altered: `forged_rejected`). -/
+theorem acceptance_ignores_seqno (s : State) (mid q q' : Nat) (v g : Bool) :
+    ((recvMsg s ⟨q, mid⟩ v g).recv.isSome ↔ (recvMsg s ⟨q', mid⟩ v g).recv.isSome) ∧
+    ((recvMsg s ⟨q, mid⟩ v g).failed ↔ (recvMsg s ⟨q', mid⟩ v g).failed) := by
+  unfold recvMsg
+  split <;> simp
+
+/-- The witness of the finding: the same signed message (`mid = 7`), delivered once under the
+sequence number it was submitted with and once under a rewritten one, is handed to the application
+both times — and each delivery satisfies `deliveredAuthentic` (authorship is intact). -/
+theorem seqno_rewrite_accepted :
+    let s := run [.opened 1, .recvMsg ⟨5, 7⟩ true true, .recvStep, .txLoop, .recvMsg ⟨9, 7⟩ true true, .recvStep]
+    s.delivered.map (·.1) = [⟨9, 7⟩, ⟨5, 7⟩] ∧ deliveredAuthentic s = true := by
+  decide
+
 example : deliveredAuthentic (run [.opened 1, .recvMsg ⟨5, 1⟩ true true, .recvStep, .recvMsg ⟨6, 2⟩ true false, .recvStep]) = true ∧
     (run [.opened 1, .recvMsg ⟨5, 1⟩ true true, .recvStep, .recvMsg ⟨6, 2⟩ true false, .recvStep]).delivered.length = 1 := by
   decide
